@@ -660,6 +660,18 @@ impl Network {
                             continue;
                         };
 
+                        // a register of another address verifies too, but does not belong under this key
+                        if NetworkAddress::from_register_address(*register.address())
+                            .to_record_key()
+                            != *key
+                        {
+                            warn!(
+                                "Rejecting register for {pretty_key} that belongs to another address: {}",
+                                register.address()
+                            );
+                            continue;
+                        }
+
                         match register.verify() {
                             Ok(_) => {
                                 collected_registers.push(register);
